@@ -581,7 +581,32 @@ def targeted_edits(toks, rng):
             out.append(("empty-testlist", i, toks[:i + 1] + [b")"] + toks[i + 1:]))
     if len(out) > 80:
         out = rng.sample(out, 80)
-    return out + bracket_edits(toks, rng) + tag_edits(toks, rng)
+    return out + bracket_edits(toks, rng) + tag_edits(toks, rng) + string_edits(toks, rng)
+
+
+def string_edits(toks, rng, cap=40):
+    """Lexical damage INSIDE a quoted string token (the string keeps its place): a backslash
+    right before a line break, a dropped backslash of an escaped pair at the end of a line,
+    the closing quote eaten by a backslash, an unescaped quote in the middle, bare CR."""
+    out = []
+    for i, t in enumerate(toks):
+        if t[:1] != b'"' or len(t) < 2:
+            continue
+        body = t[1:-1]
+        k = len(body) // 2
+        for name, new in (
+                ("backslash-LF", b'"' + body[:k] + b"\\\n" + body[k:] + b'"'),
+                ("backslash-CRLF", b'"' + body[:k] + b"\\\r\n" + body[k:] + b'"'),
+                ("escaped-backslash-LF", b'"' + body[:k] + b"\\\\\n" + body[k:] + b'"'),
+                ("backslash-at-end", b'"' + body + b'\\"'),
+                ("escaped-backslash-at-end", b'"' + body + b'\\\\"'),
+                ("quote-inside", b'"' + body[:k] + b'"' + body[k:] + b'"'),
+                ("bare-CR-inside", b'"' + body[:k] + b"\r" + body[k:] + b'"'),
+                ("no-closing-quote", b'"' + body)):
+            out.append(("string:" + name, i, toks[:i] + [new] + toks[i + 1:]))
+    if len(out) > cap:
+        out = rng.sample(out, cap)
+    return out
 
 
 def tag_edits(toks, rng, cap=60):
